@@ -578,3 +578,73 @@ Theorem C04_fp3_stable_range :
     ((2 + e1) * (delta * delta) < 4 * e1 -> 1 < Rabs (nyq_lambda (K:=RF) e1 delta v)).
 Proof. exact nyquist_stable_range. Qed.
 Print Assumptions C04_fp3_stable_range.
+
+(** ** Third wave (family stfp): the loop nest of FokkerPlanckMap::apply as the source has it NOW
+
+    [Gen/Gen_FPLoop.v] (translate/fploop2coq.py, regenerated on every run) holds the ranges of the four loops of
+    FokkerPlanckMap::apply and its index expressions; the translator refuses every statement outside the idiom
+    (conditional, [continue], [break], [return], call, a local that is not index arithmetic): a data-dependent
+    shortcut - e.g. skipping the columns whose cached bunch profile is zero (seed C04-G: that cache is the profile of
+    the START distribution, so the skipped columns are an absorbing wall) - cannot be translated.  [fp_apply_loops]
+    (Model/FPLoop.v) runs the nest on the output array.  Every Fokker-Planck statement of this file and of C01 is
+    about [fp_apply]; these theorems say that [fp_apply] is what the nest computes, in every cell. *)
+From Inovesa Require Import Gen.Gen_FPLoop Model.FPLoop Proofs.FPLoopP Proofs.FPLoopGridP.
+Local Close Scope R_scope.
+Local Open Scope Z_scope.
+
+(** every column of every bunch is processed: output column (b, x) is the stencil sum over input column (b, x),
+    for every table, data, previous content of the output array, grid size and number of bunches *)
+Theorem C04_fp_apply_every_column :
+  forall (K : Fld) (nb xs n ip : Z) (H : Z -> Z * K) (D out0 : Z -> K) (b x y : Z),
+    0 < n -> 0 < xs -> 0 <= b < nb -> 0 <= x < xs -> 0 <= y < n ->
+    fp_apply_loops nb xs n ip H D out0 (b * xs * n + x * n + y) =
+    fp_col_out ip H (fun s => D (b * xs * n + x * n + s)) y.
+Proof. exact fp_apply_loops_every_column. Qed.
+Print Assumptions C04_fp_apply_every_column.
+
+(** the step has no input but the column itself (and the table): no cached projection, no other column *)
+Theorem C04_fp_apply_column_local :
+  forall (K : Fld) (nb xs n ip : Z) (H : Z -> Z * K) (D D' out0 out0' : Z -> K) (b x y : Z),
+    0 < n -> 0 < xs -> 0 <= b < nb -> 0 <= x < xs -> 0 <= y < n ->
+    (forall s, D (b * xs * n + x * n + s) = D' (b * xs * n + x * n + s)) ->
+    fp_apply_loops nb xs n ip H D out0 (b * xs * n + x * n + y) =
+    fp_apply_loops nb xs n ip H D' out0' (b * xs * n + x * n + y).
+Proof. exact fp_apply_loops_column_local. Qed.
+Print Assumptions C04_fp_apply_column_local.
+
+(** the nest computes [fp_apply] in every cell of the grid and writes nowhere else *)
+Theorem C04_fp_apply_loops_are_fp_apply :
+  forall (K : Fld) (nb xs n ip : Z) (H : Z -> Z * K) (D out0 : Z -> K) (i : Z),
+    0 < n -> 0 < xs -> 0 <= nb ->
+    (0 <= i < nb * xs * n -> fp_apply_loops nb xs n ip H D out0 i = fp_apply n xs ip H D i) /\
+    (~ 0 <= i < nb * xs * n -> fp_apply_loops nb xs n ip H D out0 i = out0 i).
+Proof.
+  exact (fun K nb xs n ip H D out0 i Hn Hxs Hnb =>
+           conj (fp_apply_loops_is_fp_apply K nb xs n ip H D out0 i Hn Hxs Hnb)
+                (fp_apply_loops_elsewhere K nb xs n ip H D out0 i Hn Hxs Hnb)).
+Qed.
+Print Assumptions C04_fp_apply_loops_are_fp_apply.
+
+(** ... hence the executable model the correspondence runs on the implementation's inputs (extracted [fp_apply_list]) is the
+    nest, and so is the grid step [fp_grid] of [C04_fp_grid_second_moments] / [C04_full_step_second_moments] *)
+Theorem C04_fp_model_is_the_loop_nest :
+  forall (dt v n xs nb : Z) (yc e1 delta : Qc) (axis data : list Qc) (out0 : Z -> Qc),
+    0 < n -> 0 < xs -> 0 <= nb ->
+    fp_apply_list dt v n xs nb yc e1 delta axis data =
+    map (fp_apply_loops (K:=QcF) nb xs n dt (hget (fp_table_list dt v n yc e1 delta axis)) (lget data) out0)
+        (zrange (nb * xs * n)).
+Proof. exact fp_apply_list_is_loops. Qed.
+Print Assumptions C04_fp_model_is_the_loop_nest.
+
+Theorem C04_fp_grid_is_the_loop_nest :
+  forall (n nb : Z) (e1 delta : Qc) (p : Z -> Qc) (v le m : Z) (D out0 : Z -> Qc) (i : Z),
+    0 < n -> 0 <= nb -> 0 <= i < nb * n * n ->
+    fp_grid n e1 delta p v le m D i = fp_apply_loops (K:=QcF) nb n n 3 (H3 QcF e1 delta p v n le m) D out0 i.
+Proof. exact fp_grid_is_loop_nest. Qed.
+Print Assumptions C04_fp_grid_is_the_loop_nest.
+
+(** a computed instance (2 bunches x 2 columns x 3 rows, table "row itself, weight 2"): all twelve cells doubled, cell 12 untouched *)
+Example C04_fp_apply_loops_instance :
+  map (fp_apply_loops (K:=QcF) 2 2 3 1 (fun k => (k, Qcz 2)) (fun i => Qcz (i + 1)) (fun _ => Qcz 7)) (zrange 13) =
+  map Qcz [2; 4; 6; 8; 10; 12; 14; 16; 18; 20; 22; 24; 7].
+Proof. exact fp_apply_loops_instance. Qed.
